@@ -50,8 +50,10 @@ from mc.ref import c09_monitor as MON
 RECURSION_LIMIT = 1000  # the CPython default; the check insists on it
 PARSE_BACKSTOP_S = 5.0
 RENDER_BACKSTOP_S = 20.0
+MAX_BACKSTOP_HANGS_PER_SHARD = 3
 LOAD_C = 100  # render step budget: template loads <= LOAD_C * (context_depth_limit + 10)
 
+CUTOFF_ERRORS = ("ContextDepthError", "TemplateInheritanceError")
 ALLOWED = "output | ContextDepthError | TemplateInheritanceError | other LiquidError"
 
 
@@ -65,7 +67,8 @@ class C09Env(Environment):
     c09_masked: list[str] = []
 
     def error(self, exc: Any, msg: Optional[str] = None, token: Any = None) -> None:
-        if isinstance(exc, BaseException) and caused_by_recursion(exc):
+        if (isinstance(exc, BaseException) and caused_by_recursion(exc)
+                and type(exc).__name__ not in ("ContextDepthError", "TemplateInheritanceError")):
             self.c09_masked.append(type(exc).__name__)
         return super().error(exc, msg=msg, token=token)
 
@@ -291,10 +294,14 @@ def run_render_case(templates: dict[str, str], limits: dict[str, int], mode: str
             return {"kind": "recursion", "site": last_repo_frame(e), "surfaced_as": "RecursionError", "depth": depth,
                     "levels": render_levels(e)}
         except LiquidError as e:
-            if caused_by_recursion(e):
-                return {"kind": "recursion", "site": last_repo_frame(e), "surfaced_as": type(e).__name__,
+            cls = type(e).__name__
+            if caused_by_recursion(e) and cls not in CUTOFF_ERRORS:
+                # e.g. LiquidError("unexpected liquid parsing error") from RecursionError: the stack was
+                # exhausted and a catch-all wrapped it.  A ContextDepthError / TemplateInheritanceError is
+                # the cut-off the statement asks for, whatever raised it.
+                return {"kind": "recursion", "site": last_repo_frame(e), "surfaced_as": cls,
                         "depth": depth, "levels": render_levels(e)}
-            return {"kind": "liquid", "cls": type(e).__name__, "depth": depth}
+            return {"kind": "liquid", "cls": cls, "depth": depth}
         except Exception as e:  # noqa: BLE001
             return {"kind": "other", "cls": type(e).__name__, "site": last_repo_frame(e), "depth": depth}
 
@@ -608,7 +615,13 @@ class C09(Check):
                    start: str = "t0") -> None:
         case = {"phase": "render", "family": fam, "kinds": list(kinds), "wrapper": w, "b": b, "templates": templates,
                 "limits": limits, "mode": mode, "api": api, "loader": ld, "start": start}
+        if res.counters.get("render_cases_hit_cpu_backstop", 0) >= MAX_BACKSTOP_HANGS_PER_SHARD:
+            # every further hang costs RENDER_BACKSTOP_S of CPU; the shard already fails
+            res.count("render_cases_skipped_after_repeated_hangs")
+            return
         r = run_render_case(templates, limits, mode, api, ld, start)
+        if r["kind"] in ("hang", "killed"):
+            res.count("render_cases_hit_cpu_backstop")
         desc = (f"render[{api},{mode},{ld} loader] of {start} in {{{', '.join(f'{k}: {v[:70]!r}' for k, v in templates.items())}}} "
                 f"(links {links}, {b} nested {w} blocks, limits {limits or 'default'})")
         sig = {"phase": "render", "family": fam, "links": links, "wrapper": w}
